@@ -5,6 +5,9 @@ CONSTANTS
   FAdd <- AddM
   FMul <- MulM
   FLess <- LessM
+  FW = 1
+  WithExt = FALSE
+  ExtConsts = {}
   NW = 10
   NR = 9
   NC = 2
